@@ -12,11 +12,12 @@ import (
 // C08 - every file written is a well-formed Standard MIDI File.
 
 type C08Case struct {
-	Doc     Doc  `json:"doc"`
-	UseFile bool `json:"use_file"`        // read the -o file instead of stdout
-	Stale   bool `json:"stale,omitempty"` // the -o path already exists and is longer than the new result
-	Debug   bool `json:"debug,omitempty"` // --debug: diagnostics go to stderr, what is written is still the file
-	Huge    bool `json:"huge,omitempty"`  // contains a duration near or beyond what a MIDI delta time can hold: refusing it is fine
+	Doc     Doc    `json:"doc"`
+	UseFile bool   `json:"use_file"`        // read the -o file instead of stdout
+	Stale   bool   `json:"stale,omitempty"` // the -o path already exists and is longer than the new result
+	Empty   string `json:"empty,omitempty"` // instead of the document: an instances file without instances ("", "[]", a comment); a refusal or a well-formed file
+	Debug   bool   `json:"debug,omitempty"` // --debug: diagnostics go to stderr, what is written is still the file
+	Huge    bool   `json:"huge,omitempty"`  // contains a duration near or beyond what a MIDI delta time can hold: refusing it is fine
 }
 
 func strictSMF(b []byte, wantTracks int) (sig, msg string) {
@@ -57,6 +58,10 @@ func checkC08(c C08Case) *Violation {
 	ctx := fmt.Sprintf("\nargs=%v\n%s", d.Flags.Argv(), d.YAML())
 	argv := append([]string{"write"}, d.Flags.Argv()...)
 	run := Run{Argv: argv, Stdin: d.YAML()}
+	if c.Empty != "" {
+		run.Stdin = strings.TrimPrefix(c.Empty, "=")
+		ctx = fmt.Sprintf("\nargs=%v\n(document: %q)", d.Flags.Argv(), run.Stdin)
+	}
 	if c.Debug {
 		run.Argv = append(run.Argv, "--debug")
 	}
@@ -78,6 +83,9 @@ func checkC08(c C08Case) *Violation {
 			return vio("track-count-beyond-header", "--track %d: exit 0 with %d bytes, but a header cannot declare more than 65535 tracks%s", d.Flags.Track, len(res.Stdout)+len(res.OutFile), clip(ctx, 600))
 		}
 		return nil
+	}
+	if res.Exit != 0 && c.Empty != "" {
+		return nil // nothing to write: refusing is fine, an exit 0 has to come with a well-formed file
 	}
 	if res.Exit != 0 && beyondDelta(d) {
 		return nil // C08 speaks about successful writes only, and an SMF cannot hold such a duration
@@ -152,6 +160,10 @@ func TestC08(t *testing.T) {
 		}
 		c := C08Case{Doc: d, UseFile: coin(t, "use-file", 30), Huge: huge, Debug: len(d.Insts) <= 40 && coin(t, "debug", 10)}
 		c.Stale = c.UseFile && rapid.Bool().Draw(t, "stale-output-file")
+		if coin(t, "document-without-instances", 2) {
+			c.Empty = rapid.SampledFrom([]string{"=", "=[]\n", "=\n", "=# nothing yet\n", "=--- []\n", "=null\n"}).Draw(t, "empty-doc")
+			c.Huge = false
+		}
 		nt := d.Flags.Track >= 2 || d.Flags.Instrument != nil || d.Flags.Program != nil
 		var classes []string
 		for _, in := range d.Insts {
@@ -178,6 +190,9 @@ func TestC08(t *testing.T) {
 		if c.Debug {
 			classes = append(classes, "with---debug")
 		}
+		if c.Empty != "" {
+			classes = append(classes, "document-without-instances")
+		}
 		if c.Huge {
 			nt = true
 			classes = append(classes, "duration-near-or-beyond-2^28-ticks")
@@ -185,7 +200,7 @@ func TestC08(t *testing.T) {
 		if d.Flags.Program != nil && *d.Flags.Program > 127 {
 			classes = append(classes, "program>127")
 		}
-		r.Case(d.YAML()+fmt.Sprint(d.Flags.Argv(), c.UseFile, c.Stale, c.Debug), nt, dedup(classes)...)
+		r.Case(d.YAML()+fmt.Sprint(d.Flags.Argv(), c.UseFile, c.Stale, c.Debug, c.Empty), nt, dedup(classes)...)
 		r.Sample(map[string]any{"args": d.Flags.Argv(), "yaml": d.YAML(), "use_file": c.UseFile})
 		r.Check(t, checkC08(c), "c08", c)
 	})
